@@ -272,7 +272,7 @@ class Executor(object):
         t = self.fx.parse_type(self.fx.contract["yields"])
         o = TSeq(t).ops(self.cx)
         cur = st.env["g_yielded"]
-        st.env["g_yielded"] = SV(o["snoc"](cur.e, self.ev.coerce(v, t, "yield").e), cur.t)
+        st.env["g_yielded"] = SV(o["snoc"](cur.e, self.ev.coerce(v, t, "yield", st).e), cur.t)
 
     def assign_name(self, st, name, val):
         decl = self.fx.types.get(name)
